@@ -684,9 +684,11 @@ def lifecycle_verdict(events):
         last_s = max([k for k, e in enumerate(names) if e == "Stopped"], default=-1)
         if any(e == "Attempt" for e in names[last_s + 1:]):
             return "stop-never-stops", "a stop request that no later start supersedes did not end in a Stopped event within 400 ms (attempts continue)"
-        after_stop = [e for i, e in life if i > marks[-1][0]]
-        if after_stop.count("Stopped") > 1:
-            return "stopped-twice", "more than one Stopped event for one stop request"
+        # every stop request yields at most one Stopped event (requests issued back to back are all recorded before the loop
+        # gets to the first of them, so the events of an earlier stop / start may follow the marker of the last stop)
+        stops = sum(1 for _, e in marks if e == "|stop|")
+        if names.count("Stopped") > stops:
+            return "stopped-twice", f"{names.count('Stopped')} Stopped events for {stops} stop requests"
         if late:
             return "attempt-after-stop", f"events {late} after the client had stopped, without a start"
     return None
